@@ -37,10 +37,12 @@ TABLE = {
              ("PiKey", [("k1", "config.param_lambda"), ("k2", "config.param_lambda"), ("k3", "config.param_lambda")]),
              ("PiToken", "pickle3:tag,vtag,etag"), ("PiResult", "set"), ("PiEncryptedDatabase", "PI_HEADER", [("HT", TBL), ("A_dict", DIL)])),
     "SSE1": ("schemes/CGKO06/SSE1", "SSE1Config", ["param_k", "param_l", "param_log2_s_bytes"],
-             None, ("SSE1Token", [("gamma", "config.param_l"), ("eta", "config.param_k + config.param_log2_s_bytes")]),
+             ("SSE1Key", [("K%d" % i_, "config.param_k") for i_ in (1, 2, 3, 4)], dict(unroll=4, requires=["config.param_k >= 1"])),
+             ("SSE1Token", [("gamma", "config.param_l"), ("eta", "config.param_k + config.param_log2_s_bytes")]),
              ("SSE1Result", "list"), ("SSE1EncryptedDatabase", "SSE1_HEADER", [("A", BL), ("T", TBL)])),
     "SSE2": ("schemes/CGKO06/SSE2", "SSE2Config", ["param_k"],
-             None, ("SSE2Token", "pickleints:t"), ("SSE2Result", "list"), ("SSE2EncryptedDatabase", "SSE2_HEADER", [("I", DIB)])),
+             ("SSE2Key", [("K1", "config.param_k"), ("K2", "config.param_k")], dict(unroll=2, requires=["config.param_k >= 1"])),
+             ("SSE2Token", "pickleints:t"), ("SSE2Result", "list"), ("SSE2EncryptedDatabase", "SSE2_HEADER", [("I", DIB)])),
 }
 _pk_cache = {}
 
@@ -72,7 +74,8 @@ for sname, (d, cfgname, cfgfields, key, tok, res, edb) in TABLE.items():
     for what in (key, tok):
         if what is None or isinstance(what[1], str):
             continue
-        cname, fields = what
+        cname, fields = what[:2]
+        extra = what[2] if len(what) > 2 else {}
         K = ST + cname
         klass(K, fields={f: TBytes for f, _ in fields},
               construct="%s(%s)" % (cname, ", ".join("{%s}" % f for f, _ in fields)))
@@ -86,7 +89,10 @@ for sname, (d, cfgname, cfgfields, key, tok, res, edb) in TABLE.items():
             offs.append((f, acc, "%s + %s" % (acc, l)))
             acc = "%s + %s" % (acc, l)
         contract(K + ".deserialize", params=dict(cls=TAny, xbytes=TBytes, config=CFGT), returns=KT,
-                 param_values={"cls": ClassRef(K)},
+                 param_values={"cls": ClassRef(K)}, requires=list(extra.get("requires", [])),
+                 # (the SSE-1 / SSE-2 key parsers cut the string in a comprehension over range(0, len, k): unrolled completely,
+                 #  with the unwinding assertion that the stated number of pieces is all there is)
+                 unroll=({0: extra["unroll"]} if "unroll" in extra else None),
                  raises={"ValueError": dict(when="len(xbytes) != %s" % total, iff=True)},
                  ensures=["result.%s == xbytes[%s:%s]" % (f, a, b) for f, a, b in offs],
                  lemmas=["psum_full", "psum_nonneg", "pieces_join"], depth=6, no_runtime=True, props=["C03"])
@@ -94,7 +100,7 @@ for sname, (d, cfgname, cfgfields, key, tok, res, edb) in TABLE.items():
         contract("ghost:" + n, params=dict(x=KT, config=CFGT), returns=KT, ghost_scope=d + "/structures.py",
                  body="def %s(x, config):\n    return %s.deserialize(x.serialize(), config)\n" % (n, cname),
                  # well-formedness established by _Gen / _Trap: each component has the length the configuration says
-                 requires=["len(x.%s) == %s" % (f, l) for f, l in fields],
+                 requires=["len(x.%s) == %s" % (f, l) for f, l in fields] + list(extra.get("requires", [])),
                  ensures=["result.%s == x.%s" % (f, f) for f, _ in fields], props=["C03"])
     # ---- pickled token
     if tok is not None and isinstance(tok[1], str):
